@@ -225,11 +225,29 @@ class NativeContract(object):
             detail['expected'] = repr(expected)
             if not outcomes_same(actual, expected):
                 ok = False
+        ghost = self.decl.get('ghost') or {}
+        gpools = [api.samples_of(d, random.Random(0)) for d in ghost.values()]
         for pf in (self.post, self.post_native):
             if pf is None:
                 continue
             if pf is self.post and self.decl.get('post_exact_reals'):
                 continue      # stated over exact reals (floor / multiples): only meaningful symbolically; natively see post_native / the grids
+            if ghost:
+                # ghost arguments quantify over probe values: natively every sample is tried
+                bad = None
+                for combo in itertools.islice(itertools.product(*gpools), 200):
+                    try:
+                        if not pf(*(vals + list(combo) + [actual])):
+                            bad = combo
+                            break
+                    except Exception as ex:
+                        bad = (combo, repr(ex))
+                        break
+                if bad is not None:
+                    ok = False
+                    detail['ghost'] = repr(bad)
+                    detail.setdefault('expected', '%s(...) holds for every probe value' % pf.__name__)
+                continue
             try:
                 r = pf(*(vals + [actual]))
             except Exception as ex:
